@@ -1,9 +1,10 @@
-import OjgVerif.Writer.LemmasAlign
-/-! Lemmas about the `pretty` model when the only alignment tables used are tables of ARRAYS (Align off,
-or every table of the tree is an array of arrays without objects inside; keys of a map may be
+import OjgVerif.Writer.LemmasAlignMap
+/-! Lemmas about the `pretty` model when the alignment tables used are tables of arrays without objects
+inside or tables of flat objects with complete rows (`tablesAO`; or Align off; keys of a map may be
 aligned): `fill` appends a text that is a function of the tree (`ptext`: the same tokens as the `oj`
 writers, other white space), and the RFC 8259 reader gives back the tree minus the members
-OmitNil / OmitEmpty name. The table functions themselves are in `LemmasAlign.lean`. -/
+OmitNil / OmitEmpty name. The table functions themselves are in `LemmasAlign.lean` (arrays) and
+`LemmasAlignMap.lean` (flat objects). -/
 set_option linter.unusedSimpArgs false
 set_option linter.unusedVariables false
 namespace OjgVerif.Writer.Pretty
@@ -333,6 +334,345 @@ theorem tableOfV_facts (w : PW) (ord : Kvs → Kvs) (f : Nat) (xs : List JV) (d 
   rw [← hc] at k1 k2
   exact ⟨hallarr, hao, k1, fun y hy => k2 _ (List.mem_map_of_mem hy), hfit⟩
 
+/-! ### `skip` marks against the specification-side rule -/
+
+/-- the `skip` mark of a node is the documented rule: nil under OmitNil; empty string, slice, map
+under OmitEmpty -/
+theorem build_skip (o : POpts) (ord : Kvs → Kvs) (f : Nat) (v : JV) :
+    (build o ord (f + 1) v).skip = omits (ojOptsOf o) v := by
+  cases v with
+  | null => simp [build, PNode.skip, omits, ojOptsOf]
+  | bool b => cases b <;> simp [build, PNode.skip, omits]
+  | int i => simp [build, PNode.skip, omits]
+  | flt t => simp [build, PNode.skip, omits]
+  | big t => simp [build, PNode.skip, omits]
+  | num t => simp [build, PNode.skip, omits]
+  | str x => cases x <;> simp [build, PNode.skip, omits, ojOptsOf]
+  | arr xs => cases xs <;> simp [build, PNode.skip, omits, ojOptsOf]
+  | obj kvs => cases kvs <;> simp [build, PNode.skip, omits, ojOptsOf]
+
+/-- the members `pretty` writes are those the options keep -/
+theorem keptP_eq (w : PW) (ord : Kvs → Kvs) (f : Nat) (kvs : Kvs) (hf : 0 < f) :
+    keptP w ord f kvs = (sortKvs (ord kvs)).filter fun kv => !omits (ojOptsOf w.o) kv.2 := by
+  obtain ⟨f', rfl⟩ : ∃ f', f = f' + 1 := ⟨f - 1, by omega⟩
+  simp only [keptP]
+  apply List.filter_congr
+  intro kv _
+  rw [build_skip]
+
+/-! ### tables of flat objects -/
+
+/-- the writer's key encoding and omission rule -/
+def encW (w : PW) : Bytes → Bytes := fun k => jsonString k (!w.o.htmlUnsafe)
+def dropW (w : PW) : JV → Bool := omits (ojOptsOf w.o)
+
+theorem build_obj_row (w : PW) (ord : Kvs → Kvs) (f : Nat) (kvs : Kvs) :
+    ∃ sz dp sk, build w.o ord (f + 1) (.obj kvs) = .map (rowMs (encW w) (build w.o ord f) (keptP w ord f kvs)) sz dp sk := by
+  have hm : (buildMembers w.o (build w.o ord f) (sortKvs (ord kvs)) [] 2 0).1 =
+      (keptP w ord f kvs).map fun kv => (jsonString kv.1 (!w.o.htmlUnsafe), build w.o ord f kv.2) := by
+    rw [buildMembers_fst]; simp [keptP]
+  exact ⟨_, _, _, by simp only [build, hm]; rfl⟩
+
+theorem build_leaf_scalar (o : POpts) (ord : Kvs → Kvs) (f : Nat) (v : JV) (h1 : isArr v = false) (h2 : isObj v = false) :
+    ∃ k buf sk, build o ord f v = .leaf k buf sk := by
+  cases f with
+  | zero => exact ⟨_, _, _, rfl⟩
+  | succ f =>
+    cases v with
+    | arr xs => simp [isArr] at h1
+    | obj kvs => simp [isObj] at h2
+    | bool b =>
+      cases b
+      · exact ⟨Gen.Pretty.strNode, Gen.Pretty.falseStr.toList, false, by simp [build]⟩
+      · exact ⟨Gen.Pretty.strNode, Gen.Pretty.trueStr.toList, false, by simp [build]⟩
+    | _ => exact ⟨_, _, _, rfl⟩
+
+theorem flat_row (w : PW) (ord : Kvs → Kvs) (hord : IsOrder ord) (f : Nat) (kvs : Kvs) (h : flatObj (.obj kvs) = true) :
+    FlatMap (build w.o ord (f + 1) (.obj kvs)) := by
+  obtain ⟨sz, dp, sk, hb⟩ := build_obj_row w ord f kvs
+  rw [hb]
+  simp only [FlatMap, rowMs, List.mem_map]
+  rintro km ⟨kv, hkv, rfl⟩
+  have hperm : (sortKvs (ord kvs)).Perm kvs := (sortKvs_perm _).trans (hord kvs)
+  have hmem : kv ∈ kvs := hperm.mem_iff.mp ((List.filter_sublist).subset hkv)
+  simp only [flatObj, List.all_eq_true, isScalar, Bool.and_eq_true, Bool.not_eq_true'] at h
+  exact build_leaf_scalar w.o ord f kv.2 (h kv hmem).1 (h kv hmem).2
+
+theorem keptP_mem (w : PW) (ord : Kvs → Kvs) (hord : IsOrder ord) (f : Nat) (kvs : Kvs) (hf : 0 < f) (kv : Bytes × JV) :
+    kv ∈ keptP w ord f kvs ↔ (kv ∈ kvs ∧ dropW w kv.2 = false) := by
+  have hperm : (sortKvs (ord kvs)).Perm kvs := (sortKvs_perm _).trans (hord kvs)
+  rw [keptP_eq w ord f kvs hf]
+  simp only [List.mem_filter, hperm.mem_iff, dropW, Bool.not_eq_true']
+
+theorem rowKeys_mem (drop : JV → Bool) (enc : Bytes → Bytes) (kvs : Kvs) (k : Bytes) :
+    k ∈ rowKeys drop enc (.obj kvs) ↔ ∃ kv ∈ kvs, drop kv.2 = false ∧ enc kv.1 = k := by
+  simp only [rowKeys, List.mem_map, List.mem_filter, Bool.not_eq_true']
+  constructor
+  · rintro ⟨kv, ⟨h1, h2⟩, h3⟩; exact ⟨kv, h1, h2, h3⟩
+  · rintro ⟨kv, h1, h2, h3⟩; exact ⟨kv, ⟨h1, h2⟩, h3⟩
+
+theorem findKv_isSome (enc : Bytes → Bytes) (key : Bytes) : ∀ kept : Kvs, (∃ kv ∈ kept, enc kv.1 = key) →
+    (findKv enc key kept).isSome = true := by
+  intro kept
+  induction kept with
+  | nil => rintro ⟨kv, h, _⟩; simp at h
+  | cons x r ih =>
+    rintro ⟨kv, h, e⟩
+    simp only [findKv]
+    by_cases hx : enc x.1 = key
+    · simp [hx]
+    · simp only [hx, ↓reduceIte]
+      simp only [List.mem_cons] at h
+      rcases h with rfl | h
+      · exact absurd e hx
+      · exact ih ⟨kv, h, e⟩
+
+theorem lastPres_of_last (enc : Bytes → Bytes) (kept : Kvs) : ∀ cols : List Table,
+    (∀ pre c0, cols = pre ++ [c0] → (findKv enc c0.key.string kept).isSome = true) → lastPres enc kept cols := by
+  intro cols
+  induction cols with
+  | nil => intro _; simp [lastPres]
+  | cons c r ih =>
+    intro h
+    cases r with
+    | nil => simp only [lastPres]; exact h [] c rfl
+    | cons d r' =>
+      simp only [lastPres]
+      exact ih (fun pre c0 e => h (c :: pre) c0 (by rw [e]; rfl))
+
+/-- what the kind of the rows and the table are when `fill` aligns the rows of an array -/
+theorem tableOfV_kind (w : PW) (ord : Kvs → Kvs) (f : Nat) (xs : List JV) (d : Nat) (c : Table)
+    (h : tableOfV w ord f xs d = some c) :
+    w.o.align = true ∧ 2 ≤ xs.length ∧ d * w.indent + c.size ≤ w.width ∧
+      c = foldUpd w.fuel (xs.map (build w.o ord f)) (.mk (.idx 0) 0 [] 0) ∧
+      (xs.all isArr = true ∨ (xs.all isObj = true ∧ 0 < f)) := by
+  have hb : build w.o ord (f + 1) (.arr xs) = .arr (xs.map (build w.o ord f))
+      (arrSize (xs.map (build w.o ord f)) 0 2) (arrDepth (xs.map (build w.o ord f)) 0)
+      (w.o.omitEmpty && xs.length = 0) := by simp [build]
+  unfold tableOfV at h
+  rw [hb] at h
+  obtain ⟨hal, hlen, hg, hfit⟩ := tableOf_some _ _ _ _ _ _ h
+  simp only [List.length_map] at hlen
+  obtain ⟨hk, hc⟩ := genTables_some _ _ _ _ _ _ hg
+  have hnz : ∀ x ∈ (xs.map (build w.o ord f)).map PNode.kind, x ≠ 0 := by
+    intro x hx
+    simp only [List.map_map, List.mem_map, Function.comp] at hx
+    obtain ⟨y, _, rfl⟩ := hx
+    exact build_kind_ne_zero w.o ord f y
+  refine ⟨hal, hlen, hfit, hc, ?_⟩
+  rcases hk with hk | hk
+  · left
+    have hall := subKind_all _ _ (by decide) hnz hk
+    simp only [List.all_eq_true]
+    intro y hy
+    exact build_kind_arr w.o ord f y (hall _ (by
+      simp only [List.map_map, List.mem_map, Function.comp]; exact ⟨y, hy, rfl⟩))
+  · right
+    have hall := subKind_all _ _ (by decide) hnz hk
+    refine ⟨?_, ?_⟩
+    · simp only [List.all_eq_true]
+      intro y hy
+      exact build_kind_obj w.o ord f y (hall _ (by
+        simp only [List.map_map, List.mem_map, Function.comp]; exact ⟨y, hy, rfl⟩))
+    · cases f with
+      | succ f => omega
+      | zero =>
+        exfalso
+        cases xs with
+        | nil => simp at hlen
+        | cons y r =>
+          have := hall (build w.o ord 0 y).kind (by simp)
+          simp only [build, PNode.kind] at this
+          exact absurd this (by decide)
+
+/-- the table of two or more flat object rows -/
+theorem mapTable_facts (w : PW) (ord : Kvs → Kvs) (hord : IsOrder ord) (f : Nat) (xs : List JV) (c : Table)
+    (hfu : 1 ≤ w.fuel) (hobj : xs.all isObj = true) (hflat : ∀ x ∈ xs, flatObj x = true) (hlen : 2 ≤ xs.length)
+    (hc : c = foldUpd w.fuel (xs.map (build w.o ord (f + 1))) (.mk (.idx 0) 0 [] 0)) :
+    (∀ r ∈ xs.map (build w.o ord (f + 1)), FlatMap r) ∧ MCols c.cols ∧ MGood c ∧
+      ∀ key', key' ∈ c.cols.map Table.key ↔
+        ∃ x ∈ xs.map (build w.o ord (f + 1)), ∃ k ∈ x.mkeys, key' = .str k := by
+  have hrows : ∀ r ∈ xs.map (build w.o ord (f + 1)), FlatMap r := by
+    intro r hr
+    simp only [List.mem_map] at hr
+    obtain ⟨y, hy, rfl⟩ := hr
+    have hyo : isObj y = true := by simp only [List.all_eq_true] at hobj; exact hobj y hy
+    cases y with
+    | obj kvs => exact flat_row w ord hord f kvs (hflat _ hy)
+    | _ => simp [isObj] at hyo
+  obtain ⟨fu, hfue⟩ : ∃ fu, w.fuel = fu + 1 := ⟨w.fuel - 1, by omega⟩
+  cases xs with
+  | nil => simp at hlen
+  | cons y r =>
+    rw [hfue] at hc
+    simp only [List.map_cons] at hc hrows ⊢
+    obtain ⟨a1, a2, a3⟩ := foldUpd_flat fu (build w.o ord (f + 1) y) (r.map (build w.o ord (f + 1))) hrows
+    rw [← hc] at a1 a2 a3
+    exact ⟨hrows, a1, a2, a3⟩
+
+theorem nodup_of_map {α β : Type} (g : α → β) : ∀ l : List α, (l.map g).Nodup → l.Nodup := by
+  intro l
+  induction l with
+  | nil => intro _; simp
+  | cons a r ih =>
+    intro h
+    simp only [List.map_cons, List.nodup_cons] at h ⊢
+    exact ⟨fun hm => h.1 (List.mem_map_of_mem hm), ih h.2⟩
+
+theorem mkeys_nonobj (o : POpts) (ord : Kvs → Kvs) (f : Nat) (y : JV) (h : isObj y = false) :
+    (build o ord f y).mkeys = [] := by
+  cases f with
+  | zero => rfl
+  | succ f =>
+    cases y with
+    | obj kvs => simp [isObj] at h
+    | bool b => cases b <;> simp [build, PNode.mkeys]
+    | _ => rfl
+
+theorem mkeys_row (w : PW) (ord : Kvs → Kvs) (f : Nat) (kvs : Kvs) :
+    (build w.o ord (f + 1) (.obj kvs)).mkeys = (keptP w ord f kvs).map fun kv => encW w kv.1 := by
+  obtain ⟨sz, dp, sk, hb⟩ := build_obj_row w ord f kvs
+  rw [hb]
+  simp [PNode.mkeys, rowMs]
+
+/-- everything `parse_flatRow` asks of a row of a table of flat objects with complete rows -/
+theorem flatRow_facts (w : PW) (ord : Kvs → Kvs) (hord : IsOrder ord) (f : Nat) (xs : List JV) (c : Table) (hf : 0 < f)
+    (hsorted : MSorted c.cols)
+    (hkeys : ∀ key', key' ∈ c.cols.map Table.key ↔
+        ∃ x ∈ xs.map (build w.o ord (f + 1)), ∃ k ∈ x.mkeys, key' = .str k)
+    (hcomp : rowsComplete (dropW w) (encW w) xs) (kvs : Kvs) (hy : JV.obj kvs ∈ xs) (hok : okW (.obj kvs))
+    (hordk : keysEncOrdered (dropW w) (encW w) (.obj kvs)) (hflat : flatObj (.obj kvs) = true) :
+    (∀ kv ∈ keptP w ord f kvs, okW kv.2 ∧ isArr kv.2 = false ∧ isObj kv.2 = false) ∧
+    ((keptP w ord f kvs).map fun kv => sanitize kv.1).Nodup ∧
+    ((keptP w ord f kvs).map fun kv => jsonString kv.1 (!w.o.htmlUnsafe)).Pairwise (fun a b => bytesLt a b = true) ∧
+    (∀ kv ∈ keptP w ord f kvs, ∃ col ∈ c.cols, col.key.string = jsonString kv.1 (!w.o.htmlUnsafe)) ∧
+    (keptP w ord f kvs = [] ∨ lastPres (fun k => jsonString k (!w.o.htmlUnsafe)) (keptP w ord f kvs) c.cols) := by
+  have hperm : (sortKvs (ord kvs)).Perm kvs := (sortKvs_perm _).trans (hord kvs)
+  have hsub : (keptP w ord f kvs).Sublist (sortKvs (ord kvs)) := List.filter_sublist
+  simp only [okW] at hok
+  have hmemk := keptP_mem w ord hord f kvs hf
+  -- the row shows exactly the keys of its kept members
+  have hrk : ∀ k, k ∈ rowKeys (dropW w) (encW w) (.obj kvs) ↔ ∃ kv ∈ keptP w ord f kvs, encW w kv.1 = k := by
+    intro k
+    rw [rowKeys_mem]
+    constructor
+    · rintro ⟨kv, h1, h2, h3⟩; exact ⟨kv, (hmemk kv).mpr ⟨h1, h2⟩, h3⟩
+    · rintro ⟨kv, h1, h3⟩; exact ⟨kv, ((hmemk kv).mp h1).1, ((hmemk kv).mp h1).2, h3⟩
+  -- every key of the row is a column
+  have hcov : ∀ kv ∈ keptP w ord f kvs, ∃ col ∈ c.cols, col.key.string = jsonString kv.1 (!w.o.htmlUnsafe) := by
+    intro kv hkv
+    have : TKey.str (encW w kv.1) ∈ c.cols.map Table.key := by
+      rw [hkeys]
+      exact ⟨build w.o ord (f + 1) (.obj kvs), List.mem_map_of_mem hy, encW w kv.1,
+        by rw [mkeys_row]; exact List.mem_map_of_mem (f := fun kv => encW w kv.1) hkv, rfl⟩
+    simp only [List.mem_map] at this
+    obtain ⟨col, hc, e⟩ := this
+    exact ⟨col, hc, by rw [e]; rfl⟩
+  refine ⟨?_, ?_, ?_, hcov, ?_⟩
+  · intro kv hkv
+    have hm := ((hmemk kv).mp hkv).1
+    simp only [flatObj, List.all_eq_true, isScalar, Bool.and_eq_true, Bool.not_eq_true'] at hflat
+    exact ⟨okW_mem_kvs _ hok.2 kv hm, (hflat kv hm).1, (hflat kv hm).2⟩
+  · exact (hsub.map _).nodup ((hperm.map _).nodup_iff.mpr hok.1)
+  · -- sorted by key, and the encodings are ordered like the keys
+    have hraw : (kvs.map fun kv => kv.1).Nodup := by
+      have := hok.1
+      have e : kvs.map (fun kv => sanitize kv.1) = (kvs.map fun kv => kv.1).map sanitize := by simp
+      rw [e] at this
+      exact nodup_of_map _ _ this
+    have hasc := sortKvs_ascending (ord kvs) (((hord kvs).map _).nodup_iff.mpr hraw)
+    have hasc2 : (keptP w ord f kvs).Pairwise (fun a b => bytesLt a.1 b.1 = true) := List.Pairwise.sublist hsub hasc
+    rw [List.pairwise_map]
+    have hall : ∀ a ∈ keptP w ord f kvs, ∀ b ∈ keptP w ord f kvs, bytesLt a.1 b.1 = true →
+        bytesLt (jsonString a.1 (!w.o.htmlUnsafe)) (jsonString b.1 (!w.o.htmlUnsafe)) = true := by
+      intro a ha b hb hlt
+      simp only [keysEncOrdered] at hordk
+      exact hordk a ((hmemk a).mp ha).1 b ((hmemk b).mp hb).1 ((hmemk a).mp ha).2 ((hmemk b).mp hb).2 hlt
+    exact List.Pairwise.imp_of_mem (fun {a b} ha hb h => hall a ha b hb h) hasc2
+  · -- the row is empty or has a member under the last column
+    rcases hcomp _ hy with hnone | ⟨k, hk, hmax⟩
+    · left
+      cases hkp : keptP w ord f kvs with
+      | nil => rfl
+      | cons kv r =>
+        exfalso
+        have : encW w kv.1 ∈ rowKeys (dropW w) (encW w) (.obj kvs) := (hrk _).mpr ⟨kv, by rw [hkp]; simp, rfl⟩
+        rw [hnone] at this; simp at this
+    · right
+      apply lastPres_of_last
+      intro pre c0 hcols
+      obtain ⟨kv0, hkv0, hek⟩ := (hrk k).mp hk
+      -- the last column's key is shown by some row
+      have hc0 : c0.key ∈ c.cols.map Table.key := by rw [hcols]; simp
+      obtain ⟨x, hx, kl, hkl, hkey0⟩ := (hkeys _).mp hc0
+      simp only [List.mem_map] at hx
+      obtain ⟨y', hy', rfl⟩ := hx
+      have hkl' : kl ∈ rowKeys (dropW w) (encW w) y' := by
+        cases y' with
+        | obj kvs' =>
+          rw [mkeys_row] at hkl
+          simp only [List.mem_map] at hkl
+          obtain ⟨kv', hkv', rfl⟩ := hkl
+          rw [rowKeys_mem]
+          have := (keptP_mem w ord hord f kvs' hf kv').mp hkv'
+          exact ⟨kv', this.1, this.2, rfl⟩
+        | _ => rw [mkeys_nonobj _ _ _ _ rfl] at hkl; simp at hkl
+      have hnlt : bytesLt k kl = false := hmax y' hy' kl hkl'
+      -- the column of `k` is the last one
+      obtain ⟨col, hcol, hcolk⟩ := hcov kv0 hkv0
+      have hc0s : c0.key.string = kl := by rw [hkey0]; rfl
+      have hcoleq : col.key.string = k := by rw [hcolk]; exact hek
+      rw [hcols] at hcol hsorted
+      simp only [List.mem_append, List.mem_singleton] at hcol
+      have hkeq : kl = k := by
+        rcases hcol with hpre | rfl
+        · exfalso
+          have := (List.pairwise_append.mp hsorted).2.2 col hpre c0 (by simp)
+          rw [hcoleq, hc0s, hnlt] at this; cases this
+        · rw [← hc0s, hcoleq]
+      apply findKv_isSome
+      exact ⟨kv0, hkv0, by rw [hc0s, hkeq]; exact hek⟩
+
+theorem tablesAO_mem_list (drop : JV → Bool) (enc : Bytes → Bytes) : ∀ (xs : List JV), tablesAOL drop enc xs →
+    ∀ x ∈ xs, tablesAO drop enc x := by
+  intro xs
+  induction xs with
+  | nil => intro _ x h; simp at h
+  | cons y r ih =>
+    intro hok x h
+    simp only [tablesAOL] at hok
+    simp only [List.mem_cons] at h
+    rcases h with rfl | h
+    · exact hok.1
+    · exact ih hok.2 x h
+
+theorem tablesAO_mem_kvs (drop : JV → Bool) (enc : Bytes → Bytes) : ∀ (kvs : Kvs), tablesAOK drop enc kvs →
+    ∀ kv ∈ kvs, tablesAO drop enc kv.2 := by
+  intro kvs
+  induction kvs with
+  | nil => intro _ x h; simp at h
+  | cons y r ih =>
+    intro hok x h
+    obtain ⟨k, v⟩ := y
+    simp only [tablesAOK] at hok
+    simp only [List.mem_cons] at h
+    rcases h with rfl | h
+    · exact hok.1
+    · exact ih hok.2 x h
+
+/-- the table of rows that are arrays without objects -/
+theorem arrTable_facts (w : PW) (ord : Kvs → Kvs) (f : Nat) (xs : List JV) (c : Table) (hfu : f ≤ w.fuel)
+    (hao : arrOnlyL xs) (hc : c = foldUpd w.fuel (xs.map (build w.o ord f)) (.mk (.idx 0) 0 [] 0)) :
+    TableA c ∧ ∀ y ∈ xs, Cov (build w.o ord f y) c := by
+  have hrows : ∀ r ∈ xs.map (build w.o ord f), AOnly r ∧ r.height ≤ w.fuel := by
+    intro r hr
+    simp only [List.mem_map] at hr
+    obtain ⟨y, hy, rfl⟩ := hr
+    exact ⟨AOnly_build w.o ord f y (arrOnlyL_mem xs hao y hy), by have := height_build w.o ord f y; omega⟩
+  obtain ⟨k1, k2, _⟩ := foldUpd_arr w.fuel (xs.map (build w.o ord f)) (.mk (.idx 0) 0 [] 0) hrows (TableA_fresh 0)
+  rw [← hc] at k1 k2
+  exact ⟨k1, fun y hy => k2 _ (List.mem_map_of_mem hy)⟩
+
 /-- the rows of `checkAlign` as the elements of an array text -/
 theorem rowsT_eq (fuel : Nat) (c : Table) (cs : Bytes) (bv : JV → PNode) : ∀ (r : List JV) (i : Nat),
     rowsT fuel c cs (r.map bv) (i + 1) = tElems (fun y => nodeT fuel (bv y) c) cs r := by
@@ -507,7 +847,7 @@ theorem fillMembers_spec (fv : PNode → Nat → Bool → PSt → PSt) (bv : JV 
 /-- when no table is aligned (Align off, or no array of the tree is a table), everything `fill` does
 amounts to appending `ptext`; no slice is ever out of range (`bad` stays off) -/
 theorem fill_flat (w : PW) (lim : Option Nat) (ord : Kvs → Kvs) (hord : IsOrder ord) (hw : w.width ≤ 128) :
-    ∀ (f : Nat) (v : JV) (d : Nat) (flat : Bool) (s : PSt), (w.o.align = true → tablesArr v) → f ≤ w.fuel →
+    ∀ (f : Nat) (v : JV) (d : Nat) (flat : Bool) (s : PSt), (w.o.align = true → tablesAO (dropW w) (encW w) v) → f ≤ w.fuel →
       s.bad = false →
       (fill w lim f (build w.o ord f v) d flat s).bad = false ∧
       (fill w lim f (build w.o ord f v) d flat s).flat = s.flat ++ ptext w ord f v d flat := by
@@ -539,11 +879,11 @@ theorem fill_flat (w : PW) (lim : Option Nat) (ord : Kvs → Kvs) (hord : IsOrde
       have hl : layoutOf w d (flat || (d * w.indent + arrSize (xs.map (build w.o ord f)) 0 2 < w.width &&
           arrDepth (xs.map (build w.o ord f)) 0 < w.o.maxDepth)) = lay w ord (f + 1) (.arr xs) d flat := by
         simp [lay, hb, PNode.size, PNode.depth]
-      have hnm : ∀ y ∈ xs, (w.o.align = true → tablesArr y) := by
+      have hnm : ∀ y ∈ xs, (w.o.align = true → tablesAO (dropW w) (encW w) y) := by
         intro y hy hal
         have hn := hnt hal
-        simp only [tablesArr] at hn
-        exact tablesArr_mem_list _ hn.2 y hy
+        simp only [tablesAO] at hn
+        exact tablesAO_mem_list _ _ _ hn.2 y hy
       rw [hb, fill_arr_eq, hl]
       have h1 := push1_ok s 91 hs
       cases xs with
@@ -578,13 +918,25 @@ theorem fill_flat (w : PW) (lim : Option Nat) (ord : Kvs → Kvs) (hord : IsOrde
           simp only
           exact ⟨h4.1, by rw [h4.2, h3.2, h2.2, hsp.2, h1.2]; simp⟩
         | some c =>
-          have hal : w.o.align = true := (tableOf_some _ _ _ _ _ _ (by rw [htv]; exact htab)).1
-          obtain ⟨_, hao, hta, _, hfit⟩ := tableOfV_facts w ord f (x :: r) d c (by omega) (hnt hal) htab
+          obtain ⟨hal, hlen, hfit, hc, hkind⟩ := tableOfV_kind w ord f (x :: r) d c htab
+          have hn := hnt hal
+          simp only [tablesAO] at hn
+          obtain ⟨harr, hobj⟩ := hn.1 hlen
           have hrok : ∀ m ∈ (x :: r).map (build w.o ord f), nodeOK w.fuel m c := by
-            intro m hm
-            simp only [List.mem_map] at hm
-            obtain ⟨y, hy, rfl⟩ := hm
-            exact nodeOK_of_TableA w.fuel _ c (AOnly_build w.o ord f y (arrOnlyL_mem _ hao y hy)) hta (by omega)
+            rcases hkind with hk | ⟨hk, hf0⟩
+            · have hao := harr hk
+              obtain ⟨hta, _⟩ := arrTable_facts w ord f (x :: r) c (by omega) hao hc
+              intro m hm
+              simp only [List.mem_map] at hm
+              obtain ⟨y, hy, rfl⟩ := hm
+              exact nodeOK_of_TableA w.fuel _ c (AOnly_build w.o ord f y (arrOnlyL_mem _ hao y hy)) hta (by omega)
+            · obtain ⟨f', rfl⟩ : ∃ f', f = f' + 1 := ⟨f - 1, by omega⟩
+              obtain ⟨fu, hfue⟩ : ∃ fu, w.fuel = fu + 1 := ⟨w.fuel - 1, by omega⟩
+              obtain ⟨hrows, _, hgood, _⟩ := mapTable_facts w ord hord f' (x :: r) c (by omega) hk
+                (fun y hy => ((hobj hk).1 y hy).1) hlen hc
+              intro m hm
+              rw [hfue]
+              exact nodeOK_flat fu m c (hrows m hm) hgood (by omega)
           have hsp := alignRows_flat w.fuel c (lay w ord (f + 1) (.arr (x :: r)) d flat).1
             ((x :: r).map (build w.o ord f)) 0 (s.push1 91) hrok h1.1
           have h2 := push_ok _ (lay w ord (f + 1) (.arr (x :: r)) d flat).2.1 hsp.1
@@ -612,12 +964,12 @@ theorem fill_flat (w : PW) (lim : Option Nat) (ord : Kvs → Kvs) (hord : IsOrde
       have hkw : (if w.o.align = true then
             maxKeyLen ((keptP w ord f kvs).map fun kv => (jsonString kv.1 (!w.o.htmlUnsafe), build w.o ord f kv.2)) 1
           else 1) = kwOf w ord f kvs := rfl
-      have hnm : ∀ kv ∈ keptP w ord f kvs, (w.o.align = true → tablesArr kv.2) := by
+      have hnm : ∀ kv ∈ keptP w ord f kvs, (w.o.align = true → tablesAO (dropW w) (encW w) kv.2) := by
         intro kv hkv hal
         have hn := hnt hal
-        simp only [tablesArr] at hn
+        simp only [tablesAO] at hn
         have hperm : (sortKvs (ord kvs)).Perm kvs := (sortKvs_perm _).trans (hord kvs)
-        exact tablesArr_mem_kvs _ hn kv (hperm.mem_iff.mp ((List.filter_sublist).subset hkv))
+        exact tablesAO_mem_kvs _ _ _ hn kv (hperm.mem_iff.mp ((List.filter_sublist).subset hkv))
       rw [hb]
       simp only [fill, hl, hkw]
       have h1 := push1_ok s 123 hs
@@ -639,32 +991,6 @@ theorem fill_flat (w : PW) (lim : Option Nat) (ord : Kvs → Kvs) (hord : IsOrde
         have h4 := flush_ok lim _ h3.1
         obtain ⟨k, x⟩ := kx
         exact ⟨h4.1, by rw [h4.2, h3.2, h2.2, hsp.2, h1.2]; simp⟩
-
-/-! ### `skip` marks against the specification-side rule -/
-
-/-- the `skip` mark of a node is the documented rule: nil under OmitNil; empty string, slice, map
-under OmitEmpty -/
-theorem build_skip (o : POpts) (ord : Kvs → Kvs) (f : Nat) (v : JV) :
-    (build o ord (f + 1) v).skip = omits (ojOptsOf o) v := by
-  cases v with
-  | null => simp [build, PNode.skip, omits, ojOptsOf]
-  | bool b => cases b <;> simp [build, PNode.skip, omits]
-  | int i => simp [build, PNode.skip, omits]
-  | flt t => simp [build, PNode.skip, omits]
-  | big t => simp [build, PNode.skip, omits]
-  | num t => simp [build, PNode.skip, omits]
-  | str x => cases x <;> simp [build, PNode.skip, omits, ojOptsOf]
-  | arr xs => cases xs <;> simp [build, PNode.skip, omits, ojOptsOf]
-  | obj kvs => cases kvs <;> simp [build, PNode.skip, omits, ojOptsOf]
-
-/-- the members `pretty` writes are those the options keep -/
-theorem keptP_eq (w : PW) (ord : Kvs → Kvs) (f : Nat) (kvs : Kvs) (hf : 0 < f) :
-    keptP w ord f kvs = (sortKvs (ord kvs)).filter fun kv => !omits (ojOptsOf w.o) kv.2 := by
-  obtain ⟨f', rfl⟩ : ∃ f', f = f' + 1 := ⟨f - 1, by omega⟩
-  simp only [keptP]
-  apply List.filter_congr
-  intro kv _
-  rw [build_skip]
 
 /-! ### reading `ptext` back -/
 
@@ -700,12 +1026,6 @@ theorem pValue_empty_arr_ws (g : Nat) (ws rest : Bytes) (h : (ws.all Spec.isWs) 
   have : Spec.skipWs (ws ++ 93 :: rest) = 93 :: rest := by
     rw [skipWs_ws_append _ _ h, skipWs_nonws 93 _ (by decide)]
   simp [Spec.pValue, show Spec.isDigit 91 = false by decide, this]
-
-theorem pValue_empty_obj_ws (g : Nat) (ws rest : Bytes) (h : (ws.all Spec.isWs) = true) :
-    Spec.pValue (g + 1) (123 :: (ws ++ 125 :: rest)) = some (.obj [], rest) := by
-  have : Spec.skipWs (ws ++ 125 :: rest) = 125 :: rest := by
-    rw [skipWs_ws_append _ _ h, skipWs_nonws 125 _ (by decide)]
-  simp [Spec.pValue, show Spec.isDigit 123 = false by decide, this]
 
 theorem ptext_head (w : PW) (ord : Kvs → Kvs) (f : Nat) (v : JV) (d : Nat) (flat : Bool) (hok : okW v) :
     ∃ b t, ptext w ord (f + 1) v d flat = b :: t ∧ startByte b = true := by
@@ -803,7 +1123,7 @@ ascending key order; the reader's fuel only has to exceed the length of the text
 theorem parse_ptext (hs : TableSafe Gen.Root.jMap) (hsp : SepWs)
     (w : PW) (ord : Kvs → Kvs) (hord : IsOrder ord) :
     ∀ (f : Nat) (v : JV) (d : Nat) (flat : Bool) (g : Nat) (rest : Bytes), okW v →
-      (w.o.align = true → tablesArr v) → f ≤ w.fuel → depth v < f →
+      (w.o.align = true → tablesAO (dropW w) (encW w) v) → f ≤ w.fuel → depth v < f →
       (ptext w ord f v d flat).length < g → follows rest = true →
       Spec.pValue g (ptext w ord f v d flat ++ rest) =
         some (normG (omits (ojOptsOf w.o)) true ord f v, rest) := by
@@ -838,41 +1158,88 @@ theorem parse_ptext (hs : TableSafe Gen.Root.jMap) (hsp : SepWs)
         generalize hl : lay w ord (f + 1) (.arr (x :: r)) d flat = l at hlw
         have hokx : okW x := okW_mem_list _ hok x (by simp)
         have hdx : depth x ≤ depthList (x :: r) := depth_mem_list _ x (by simp)
-        have hnm : ∀ y ∈ x :: r, (w.o.align = true → tablesArr y) := by
+        have hnm : ∀ y ∈ x :: r, (w.o.align = true → tablesAO (dropW w) (encW w) y) := by
           intro y hy hal
           have hn := hnt hal
-          simp only [tablesArr] at hn
-          exact tablesArr_mem_list _ hn.2 y hy
+          simp only [tablesAO] at hn
+          exact tablesAO_mem_list _ _ _ hn.2 y hy
         by_cases htab : ∃ c, tableOfV w ord f (x :: r) d = some c
         · -- the rows are aligned
           obtain ⟨c, htab⟩ := htab
           simp only [ptext, hl, htab] at hg ⊢
-          have hal : w.o.align = true := by
-            unfold tableOfV at htab
-            exact (tableOf_some _ _ _ _ _ _ htab).1
-          obtain ⟨hia, hao, hta, hcov, hfit⟩ := tableOfV_facts w ord f (x :: r) d c (by omega) (hnt hal) htab
+          obtain ⟨hal, hlen, hfit, hc, hkind⟩ := tableOfV_kind w ord f (x :: r) d c htab
+          have hn := hnt hal
+          simp only [tablesAO] at hn
+          obtain ⟨harr, hobj⟩ := hn.1 hlen
           obtain ⟨fu, hfue⟩ : ∃ fu, w.fuel = fu + 1 := ⟨w.fuel - 1, by omega⟩
           let tv := fun y => nodeT w.fuel (build w.o ord f y) c
-          have hrow : ∀ y ∈ x :: r, isArr y = true ∧ arrOnly y ∧ okW y ∧ depth y < f := by
-            intro y hy
-            refine ⟨?_, arrOnlyL_mem _ hao y hy, okW_mem_list _ hok y hy, ?_⟩
-            · simp only [List.all_eq_true] at hia; exact hia y hy
-            · have := depth_mem_list (x :: r) y hy; omega
-          have hth : ∀ y ∈ x :: r, ∃ b t, tv y = b :: t ∧ startByte b = true := by
-            intro y hy
-            obtain ⟨hya, _, _, hdy⟩ := hrow y hy
-            have : ∃ tl, nodeT w.fuel (build w.o ord f y) c = 91 :: tl := by
+          have hrowfacts : (∀ y ∈ x :: r, ∃ b t, tv y = b :: t ∧ startByte b = true) ∧
+              (∀ y ∈ x :: r, ∀ rest', (tv y).length < g → follows rest' = true →
+                Spec.pValue g (tv y ++ rest') = some (normG (omits (ojOptsOf w.o)) true ord f y, rest')) := by
+            rcases hkind with hia | ⟨hio, hf0⟩
+            · -- rows are arrays without objects
+              have hao := harr hia
+              obtain ⟨hta, hcov⟩ := arrTable_facts w ord f (x :: r) c (by omega) hao hc
+              have hrow : ∀ y ∈ x :: r, isArr y = true ∧ arrOnly y ∧ okW y ∧ depth y < f := by
+                intro y hy
+                refine ⟨?_, arrOnlyL_mem _ hao y hy, okW_mem_list _ hok y hy, ?_⟩
+                · simp only [List.all_eq_true] at hia; exact hia y hy
+                · have := depth_mem_list (x :: r) y hy; omega
+              refine ⟨?_, ?_⟩
+              · intro y hy
+                obtain ⟨hya, _, _, hdy⟩ := hrow y hy
+                have : ∃ tl, nodeT w.fuel (build w.o ord f y) c = 91 :: tl := by
+                  obtain ⟨f', rfl⟩ : ∃ f', f = f' + 1 := ⟨f - 1, by omega⟩
+                  cases y with
+                  | arr ys => rw [hfue]; exact ⟨_, rfl⟩
+                  | _ => simp [isArr] at hya
+                obtain ⟨tl, htl⟩ := this
+                exact ⟨91, tl, htl, by decide⟩
+              · intro y hy rest' hl' hr'
+                obtain ⟨hya, haoy, hoky, hdy⟩ := hrow y hy
+                exact parse_nodeT hs hsp w ord hord f y c w.fuel g rest' hoky haoy hya hdy (hcov y hy) (by omega) hl' hr'
+            · -- rows are flat objects, complete
+              obtain ⟨hfo, hcomp⟩ := hobj hio
               obtain ⟨f', rfl⟩ : ∃ f', f = f' + 1 := ⟨f - 1, by omega⟩
-              cases y with
-              | arr ys => rw [hfue]; exact ⟨_, rfl⟩
-              | _ => simp [isArr] at hya
-            obtain ⟨tl, htl⟩ := this
-            exact ⟨91, tl, htl, by decide⟩
-          have hpvrow : ∀ y ∈ x :: r, ∀ rest', (tv y).length < g → follows rest' = true →
-              Spec.pValue g (tv y ++ rest') = some (normG (omits (ojOptsOf w.o)) true ord f y, rest') := by
-            intro y hy rest' hl' hr'
-            obtain ⟨hya, haoy, hoky, hdy⟩ := hrow y hy
-            exact parse_nodeT hs hsp w ord hord f y c w.fuel g rest' hoky haoy hya hdy (hcov y hy) (by omega) hl' hr'
+              obtain ⟨_, hmc, hgood, hkeys⟩ := mapTable_facts w ord hord f' (x :: r) c (by omega) hio
+                (fun y hy => (hfo y hy).1) hlen hc
+              have hrowobj : ∀ y ∈ x :: r, ∃ kvs, y = .obj kvs := by
+                intro y hy
+                have : isObj y = true := by simp only [List.all_eq_true] at hio; exact hio y hy
+                cases y with
+                | obj kvs => exact ⟨kvs, rfl⟩
+                | _ => simp [isObj] at this
+              refine ⟨?_, ?_⟩
+              · intro y hy
+                obtain ⟨kvs, rfl⟩ := hrowobj y hy
+                obtain ⟨sz, dp, sk, hby⟩ := build_obj_row w ord f' kvs
+                have : ∃ tl, nodeT w.fuel (build w.o ord (f' + 1) (.obj kvs)) c = 123 :: tl := by
+                  rw [hby, hfue]; exact ⟨_, rfl⟩
+                obtain ⟨tl, htl⟩ := this
+                exact ⟨123, tl, htl, by decide⟩
+              · intro y hy rest' hl' hr'
+                obtain ⟨kvs, rfl⟩ := hrowobj y hy
+                have hoky : okW (.obj kvs) := okW_mem_list _ hok _ hy
+                have hdy : depth (.obj kvs) < f' + 1 := by have := depth_mem_list (x :: r) _ hy; omega
+                simp only [depth] at hdy
+                obtain ⟨f'', rfl⟩ : ∃ f'', f' = f'' + 1 := ⟨f' - 1, by omega⟩
+                obtain ⟨sz, dp, sk, hby⟩ := build_obj_row w ord (f'' + 1) kvs
+                obtain ⟨q1, q2, q3, q4, q5⟩ := flatRow_facts w ord hord (f'' + 1) (x :: r) c (by omega) hgood.1 hkeys hcomp
+                  kvs hy hoky (hfo _ hy).2 (hfo _ hy).1
+                have hlen2 : 2 ≤ (tv (.obj kvs)).length := by
+                  show 2 ≤ (nodeT w.fuel (build w.o ord (f'' + 1 + 1) (.obj kvs)) c).length
+                  rw [hby, hfue]; simp [nodeT]
+                obtain ⟨g0, rfl⟩ : ∃ g0, g = g0 + 1 + 1 := ⟨g - 2, by omega⟩
+                have hp := parse_flatRow hs hsp (!w.o.htmlUnsafe) w.o ord f'' (omits (ojOptsOf w.o)) true
+                  (keptP w ord (f'' + 1) kvs) c fu g0 rest' sz dp sk q1 q2 hgood.1 q3 q4 q5 hr'
+                have hnorm : normG (omits (ojOptsOf w.o)) true ord (f'' + 1 + 1) (.obj kvs) =
+                    .obj ((keptP w ord (f'' + 1) kvs).map fun kv =>
+                      (sanitize kv.1, normG (omits (ojOptsOf w.o)) true ord (f'' + 1) kv.2)) := by
+                  simp only [normG, normMembers_eq, order, ↓reduceIte, keptP_eq w ord (f'' + 1) kvs (by omega)]
+                show Spec.pValue (g0 + 1 + 1) (nodeT w.fuel (build w.o ord (f'' + 1 + 1) (.obj kvs)) c ++ rest') = _
+                rw [hby, hfue, hnorm]
+                exact hp
+          obtain ⟨hth, hpvrow⟩ := hrowfacts
           obtain ⟨b, t, hb, hsb⟩ := hth x (by simp)
           obtain ⟨hws, hn93, -, -⟩ := startByte_facts b hsb
           have hfol : follows (tElems tv l.1 r ++ l.2.1 ++ 93 :: rest) = true := by
@@ -996,11 +1363,11 @@ theorem parse_ptext (hs : TableSafe Gen.Root.jMap) (hsp : SepWs)
           obtain ⟨f', rfl⟩ : ∃ f', f = f' + 1 := ⟨f - 1, by omega⟩
           exact ptext_head w ord f' y (d + 1) l.2.2 hy
         have hokm : ∀ kv ∈ (k, x) :: r, okW kv.2 := fun kv h => okW_mem_kvs _ hok.2 kv (hmem kv h)
-        have hnmk : ∀ kv ∈ (k, x) :: r, (w.o.align = true → tablesArr kv.2) := by
+        have hnmk : ∀ kv ∈ (k, x) :: r, (w.o.align = true → tablesAO (dropW w) (encW w) kv.2) := by
           intro kv hkv hal
           have hn := hnt hal
-          simp only [tablesArr] at hn
-          exact tablesArr_mem_kvs _ hn kv (hmem kv hkv)
+          simp only [tablesAO] at hn
+          exact tablesAO_mem_kvs _ _ _ hn kv (hmem kv hkv)
         have hdm : ∀ kv ∈ (k, x) :: r, depth kv.2 ≤ depthKvs kvs := fun kv h => depth_mem_kvs _ kv (hmem kv h)
         have hokx : okW x := hokm (k, x) (by simp)
         have hdx := hdm (k, x) (by simp)
@@ -1209,7 +1576,7 @@ theorem pwOf_width (o : POpts) (ord : Kvs → Kvs) (v : JV) : (pwOf o ord v).wid
 
 /-- when no table is aligned the in-memory text is `ptext` -/
 theorem prettyWrite_eq_ptext (o : POpts) (ord : Kvs → Kvs) (hord : IsOrder ord) (v : JV)
-    (hnt : o.align = true → tablesArr v) :
+    (hnt : o.align = true → tablesAO (omits (ojOptsOf o)) (fun k => jsonString k (!o.htmlUnsafe)) v) :
     prettyWrite o ord v = ptext (pwOf o ord v) ord (depth v + 1) v 0 false := by
   have h := fill_flat (pwOf o ord v) none ord hord (pwOf_width o ord v) (depth v + 1) v 0 false {} hnt
     (by rw [pwOf_fuel]; omega) rfl
@@ -1230,7 +1597,7 @@ theorem prettyWrite_eq_ptext (o : POpts) (ord : Kvs → Kvs) (hord : IsOrder ord
 
 /-- … and so are the chunks handed to the `io.Writer`, joined, for every WriteLimit -/
 theorem prettyWriteTo_flatten (o : POpts) (ord : Kvs → Kvs) (hord : IsOrder ord) (limit : Nat) (v : JV)
-    (hnt : o.align = true → tablesArr v) :
+    (hnt : o.align = true → tablesAO (omits (ojOptsOf o)) (fun k => jsonString k (!o.htmlUnsafe)) v) :
     (prettyWriteTo o ord limit v).flatten = ptext (pwOf o ord v) ord (depth v + 1) v 0 false := by
   have h := fill_flat (pwOf o ord v) (some (effLimit limit)) ord hord (pwOf_width o ord v) (depth v + 1) v 0 false {} hnt
     (by rw [pwOf_fuel]; omega) rfl
@@ -1296,5 +1663,52 @@ theorem tablesArr_of_noTable : ∀ (n : Nat) (v : JV), depth v < n → noTable v
             ihr (fun z hz => hm z (by simp [hz])) hn.2⟩
       exact hl kvs (fun _ h => h) hv
     | _ => simp [tablesArr]
+
+
+/-- tables of arrays only are a special case -/
+theorem tablesAO_of_tablesArr (drop : JV → Bool) (enc : Bytes → Bytes) : ∀ (n : Nat) (v : JV), depth v < n →
+    tablesArr v → tablesAO drop enc v := by
+  intro n
+  induction n with
+  | zero => intro v h; omega
+  | succ n ih =>
+    intro v hd hv
+    cases v with
+    | arr xs =>
+      simp only [tablesArr] at hv
+      simp only [depth] at hd
+      simp only [tablesAO]
+      refine ⟨?_, ?_⟩
+      · intro h2
+        obtain ⟨hno, harr⟩ := hv.1 h2
+        exact ⟨harr, fun ho => by rw [ho] at hno; cases hno⟩
+      · have hl : ∀ (ys : List JV), (∀ y ∈ ys, y ∈ xs) → tablesArrL ys → tablesAOL drop enc ys := by
+          intro ys
+          induction ys with
+          | nil => intro _ _; simp [tablesAOL]
+          | cons y r ihr =>
+            intro hm hn
+            simp only [tablesArrL] at hn
+            simp only [tablesAOL]
+            exact ⟨ih y (by have := depth_mem_list xs y (hm y (by simp)); omega) hn.1,
+              ihr (fun z hz => hm z (by simp [hz])) hn.2⟩
+        exact hl xs (fun _ h => h) hv.2
+    | obj kvs =>
+      simp only [tablesArr] at hv
+      simp only [depth] at hd
+      simp only [tablesAO]
+      have hl : ∀ (ys : Kvs), (∀ y ∈ ys, y ∈ kvs) → tablesArrK ys → tablesAOK drop enc ys := by
+        intro ys
+        induction ys with
+        | nil => intro _ _; simp [tablesAOK]
+        | cons y r ihr =>
+          intro hm hn
+          obtain ⟨k, x⟩ := y
+          simp only [tablesArrK] at hn
+          simp only [tablesAOK]
+          exact ⟨ih x (by have := depth_mem_kvs kvs (k, x) (hm _ (by simp)); simp at this; omega) hn.1,
+            ihr (fun z hz => hm z (by simp [hz])) hn.2⟩
+      exact hl kvs (fun _ h => h) hv
+    | _ => simp [tablesAO]
 
 end OjgVerif.Writer.Pretty
